@@ -175,6 +175,11 @@ fn make_cfg(p: &Point, is_s: bool, is_answerer: bool) -> RtcConfiguration {
         c.ice_udp_mux = true;
         c.ice_udp_mux_port = Some(free_udp_port());
     }
+    // The first DATA chunk of a direction is sometimes sent before the peer's association is fully up and is then
+    // only delivered by the T3 retransmission after sctp_rto_initial (default 3 s, i.e. 6 s per point for the two
+    // directions; under load this dominated the run time of the full lattice). The lattice has no SCTP timer axis:
+    // run with a 400 ms initial RTO (>= sctp_rto_min), everything else default.
+    c.sctp_rto_initial = Duration::from_millis(400);
     // the property is about a loopback network
     c.bind_ip = Some("127.0.0.1".into());
     c.disable_ipv6 = true;
@@ -424,6 +429,9 @@ struct Timeouts { gather: Duration, connect: Duration, deliver: Duration, delive
 
 async fn run_point(p: Point, tmo: &Timeouts) -> RunResult {
     let mut r = RunResult::default();
+    let t_pt = Instant::now();
+    let trace = std::env::var("C10_TRACE").is_ok();
+    macro_rules! mark { ($what:expr) => { if trace { eprintln!("  [{:>6} ms] {}", t_pt.elapsed().as_millis(), $what); } }; }
     macro_rules! bail { ($stage:expr, $e:expr) => {{ r.stage = $stage.into(); r.error = Some($e); return r; }}; }
     let direct = !p.webrtc();
     let (off_is_s, ans_is_s) = (p.s_offers, !p.s_offers);
@@ -450,6 +458,7 @@ async fn run_point(p: Point, tmo: &Timeouts) -> RunResult {
     let off_media = match add_media(&off, &p) { Ok(v) => v, Err(e) => bail!("add_track(offerer)", e) };
     let ans_media = match add_media(&ans, &p) { Ok(v) => v, Err(e) => bail!("add_track(answerer)", e) };
 
+    mark!("endpoints built");
     // complete, non-trickle offer/answer through SDP text
     if let Err(e) = off.create_offer().await { bail!("create_offer(1)", e.to_string()); }
     if !gather(&off, direct, tmo.gather).await { bail!("gather(offerer)", "ICE gathering did not complete".into()); }
@@ -470,6 +479,7 @@ async fn run_point(p: Point, tmo: &Timeouts) -> RunResult {
     let answer_rx = match SessionDescription::parse(SdpType::Answer, &r.answer_sdp) { Ok(d) => d, Err(e) => bail!("parse(answer)", e.to_string()) };
     if let Err(e) = off.set_remote_description(answer_rx).await { bail!("set_remote_description(answer)", e.to_string()); }
     r.stage = "negotiated".into();
+    mark!("negotiated");
     if p.mode == 1 {
         let (so, ko) = first_crypto(&offer);
         let (sa, ka) = first_crypto(&answer);
@@ -488,6 +498,7 @@ async fn run_point(p: Point, tmo: &Timeouts) -> RunResult {
         Err(_) => { r.error = Some(format!("not Connected within {:?} (offerer {:?}, answerer {:?})", tmo.connect,
                         *off.subscribe_peer_state().borrow(), *ans.subscribe_peer_state().borrow())); }
     }
+    mark!("connect wait over");
     if r.connected {
         r.stage = "connected".into();
         if let Some(dc_off) = &dcep_off {
@@ -528,12 +539,15 @@ async fn run_point(p: Point, tmo: &Timeouts) -> RunResult {
             r.rtp_ok.insert(format!("{:?}", mo.kind).to_lowercase(), (a, b));
         }
         r.stage = "exchanged".into();
+        mark!("exchanged");
     }
     observe_live(&off, p.webrtc(), &mut r.off);
     observe_live(&ans, p.webrtc(), &mut r.ans);
+    mark!("observed");
     off.close();
     ans.close();
     tokio::time::sleep(Duration::from_millis(50)).await;
+    mark!("closed");
     r
 }
 
@@ -668,10 +682,20 @@ fn known_class(p: &Point, r: &RunResult, runtime: &[String]) -> Option<String> {
     None
 }
 
-fn run_blocking(p: Point, tmo: &Timeouts) -> RunResult {
-    let rt = tokio::runtime::Builder::new_multi_thread().worker_threads(4).enable_all().build().unwrap();
-    let res = std::panic::catch_unwind(std::panic::AssertUnwindSafe(|| rt.block_on(run_point(p, tmo))));
+fn run_blocking(p: Point, tmo: &Timeouts, rt_workers: usize) -> RunResult {
+    let rt = tokio::runtime::Builder::new_multi_thread().worker_threads(rt_workers).enable_all().build().unwrap();
+    // hard cap: no single point may block a worker for good (every await inside has its own timeout except the
+    // signalling calls themselves)
+    let cap = tmo.gather * 2 + tmo.connect + tmo.deliver_data * 2 + tmo.deliver * 2 + tmo.answer_delay + Duration::from_secs(20);
+    let res = std::panic::catch_unwind(std::panic::AssertUnwindSafe(|| rt.block_on(async {
+        match tokio::time::timeout(cap, run_point(p, tmo)).await {
+            Ok(r) => r,
+            Err(_) => RunResult { stage: "hung".into(), error: Some(format!("the point did not finish within {:?} (a signalling call never returned)", cap)), ..Default::default() },
+        }
+    })));
+    let t_sd = Instant::now();
     rt.shutdown_timeout(Duration::from_millis(200));
+    if std::env::var("C10_TRACE").is_ok() { eprintln!("  runtime shutdown took {} ms", t_sd.elapsed().as_millis()); }
     match res {
         Ok(r) => r,
         Err(e) => {
@@ -776,14 +800,14 @@ fn main() {
                             latching: f[7] == 1, compat: f[8], s_offers: f[9] == 1, mux_p: f[10], compat_p: f[11], tcp_only: f[12] == 1, dcep: f[13] == 1 };
             let rep: usize = std::env::var("C10_REPEAT").ok().and_then(|s| s.parse().ok()).unwrap_or(1);
             jobs_v = (0..rep).map(|_| Job { p, kind: "corpus", delay_ms: 0 }).collect();
-            let r = run_blocking(p, &base_tmo);
+            let r = run_blocking(p, &base_tmo, 2);
             eprintln!("{}\n--- offer\n{}\n--- answer\n{}\n--- {:?}", p.json(), r.offer_sdp, r.answer_sdp, oracle(&p, &r));
             eprintln!("stage={} connected={} data={:?} rtp={:?} err={:?}", r.stage, r.connected, r.data_ok, r.rtp_ok, r.error);
         }
     }
     if let Ok(only) = std::env::var("C10_ONLY") { jobs_v.retain(|j| MODES[j.p.mode] == only); }
 
-    let n_workers: usize = std::env::var("C10_JOBS").ok().and_then(|s| s.parse().ok()).unwrap_or(10);
+    let n_workers: usize = std::env::var("C10_JOBS").ok().and_then(|s| s.parse().ok()).unwrap_or(if thorough { 32 } else { 12 });
     let next = Arc::new(AtomicUsize::new(0));
     let results: Arc<Mutex<Vec<Option<(RunResult, u32, Option<String>)>>>> = Arc::new(Mutex::new(vec![None; jobs_v.len()]));
     let jobs_a = Arc::new(jobs_v);
@@ -804,7 +828,12 @@ fn main() {
                 continue;
             }
             let tmo = Timeouts { answer_delay: Duration::from_millis(jobs_a[i].delay_ms), ..base_tmo.clone() };
-            let mut r = run_blocking(p, &tmo);
+            // tokio workers of the point's own runtime: 4 for the corpus and the repeated SDES calls (widens the races
+            // between the state tasks and the signalling calls), 2 otherwise (with 4, the first SCTP INIT often
+            // reaches the peer before its SCTP transport exists and the data exchange waits out sctp_rto_initial = 3 s
+            // per direction -- correct but slow, it made the full lattice take hours)
+            let rt_workers = if kind == "repeat" || kind == "corpus" { 4 } else { 2 };
+            let mut r = run_blocking(p, &tmo, rt_workers);
             let mut tries = 1;
             let mut first = None;
             let (mut l, mut rt) = oracle(&p, &r);
@@ -812,13 +841,14 @@ fn main() {
                 // retry once before reporting (sockets / timers are runtime), with short timeouts
                 first = Some(format!("{} [{}]", l.iter().chain(rt.iter()).cloned().collect::<Vec<_>>().join("; "), r.diag.clone().unwrap_or_default()));
                 let tmo2 = Timeouts { answer_delay: tmo.answer_delay, ..retry_tmo.clone() };
-                let r2 = run_blocking(p, &tmo2);
+                let r2 = run_blocking(p, &tmo2, rt_workers);
                 tries = 2;
                 let (l2, rt2) = oracle(&p, &r2);
                 if l2.len() + rt2.len() <= l.len() + rt.len() { r = r2; l = l2; rt = rt2; }
             }
             if (!l.is_empty() || !rt.is_empty()) && known_class(&p, &r, &rt).is_none() { failed.fetch_add(1, Ordering::SeqCst); }
             results.lock().unwrap()[i] = Some((r, tries, first));
+            if i % 1000 == 999 { eprintln!("c10: {} / {} points, {} failed, {:?}", i + 1, jobs_a.len(), failed.load(Ordering::SeqCst), t_all.elapsed()); }
         }));
     }
     for h in hs { let _ = h.join(); }
